@@ -38,7 +38,7 @@ func genC06(r *simrt.RNG, tier string, variant int) Plan {
 	}
 	ns := r.Intn(4)
 	for i := 0; i < ns; i++ {
-		op := Op{Kind: "sub", Client: 0, Tok: tok, N: Pick(r, []int{1, 2, 5, 40}), GapNs: int64(1e6)}
+		op := Op{Kind: "sub", Client: 0, Tok: tok, N: Pick(r, []int{1, 2, 5, 40}), GapNs: int64(1e6), Alias: r.Bool(0.25)}
 		op.Hold = r.Bool(0.4)                        // the handler returns its channel late (a cancel can land first)
 		op.Phase = Pick(r, []int{0, 0, 20, 60, 150}) // staggered: opened after k yields, i.e. while others stream or after they ended
 		if p.Clients[len(p.Clients)-1].Kind == "ws" && r.Bool(0.5) {
